@@ -91,14 +91,19 @@ async fn get_child_result(
     }
 
     if output.status.success() {
-        let result: ObjFuncChildResult = serde_json::from_slice(&output.stdout).map_err(|_| {
-            Error::ObjFuncProcInvalidOutput(ProcOutputWithObjFuncArg::new(
-                obj_func_arg.to_owned(),
-                seed,
-                output,
-            ))
-        })?;
-        Ok(result.objFuncVal)
+        // a result is a JSON object; serde would also read the struct from an array (`[1.5]`)
+        let is_object = output.stdout.iter().find(|b| !b.is_ascii_whitespace()) == Some(&b'{');
+
+        let result = serde_json::from_slice::<ObjFuncChildResult>(&output.stdout)
+            .ok()
+            .filter(|_| is_object);
+
+        match result {
+            Some(result) => Ok(result.objFuncVal),
+            None => Err(Error::ObjFuncProcInvalidOutput(
+                ProcOutputWithObjFuncArg::new(obj_func_arg.to_owned(), seed, output),
+            )),
+        }
     } else {
         trace!(
             "Child terminated unsuccessfully, status: {:?}",
